@@ -11,6 +11,7 @@
 /* ------------------------------------------------------------------ wraps */
 volatile int in_lib = 0;              /* set while a library routine runs */
 long long clk_sec = 0, clk_nsec = 0;
+long long clk_step_ns = 0;        /* the injected clock advances by this much after every reading */
 int clk_calls = 0;
 
 int __wrap_clock_gettime(clockid_t id, struct timespec *ts) {
@@ -18,6 +19,8 @@ int __wrap_clock_gettime(clockid_t id, struct timespec *ts) {
     clk_calls++;
     ts->tv_sec = (time_t) clk_sec;
     ts->tv_nsec = (long) clk_nsec;
+    clk_nsec += clk_step_ns;
+    while (clk_nsec >= 1000000000LL) { clk_nsec -= 1000000000LL; clk_sec++; }
     return 0;
 }
 
